@@ -112,7 +112,13 @@ func ciscoPlan(kind, prop string) RunFunc {
 				// The device refused a command and went on with the rest
 				// (C08 reports the refusal itself): the result still counts.
 				c.Count("scripts_with_rejected_command", 1)
-				rejected = "|after-rejected-command"
+				for _, rej := range o.Rejects {
+					// (refused deletions of a group nested by group-object do
+					// not touch managed configuration: C08's known finding)
+					if !strings.Contains(rej, " / group-object ") {
+						rejected = "|after-rejected-command"
+					}
+				}
 			}
 			if o.Unchanged != "" {
 				return fail("unchanged-but-different|"+diffKind(o.Unchanged),
@@ -128,7 +134,7 @@ func ciscoPlan(kind, prop string) RunFunc {
 				}
 				return fail(k, "after executing the script: "+o.StateDiff)
 			}
-			if rejected != "" {
+			if len(o.Rejects) > 0 {
 				return nil
 			}
 			if msg, p2 := c.Recompare(cs, o.Node.Conf, tp); msg != "" {
